@@ -29,7 +29,10 @@ impl Prop for Unsol {
     }
     fn strategy(tier: Tier) -> BoxedStrategy<Case> {
         // plus: DISABLE_UNSOLICITED sent by broadcast (no reply; it must stop the reporting all the same)
-        (case_strategy(false, if tier == Tier::Quick { 24 } else { 48 }), proptest::collection::vec((any::<u16>(), 0u8..3), 0..2))
+        (
+            case_strategy(false, if tier == Tier::Quick { 24 } else { 48 }),
+            proptest::collection::vec((any::<u16>(), 0u8..3), 0..2),
+        )
             .prop_map(|(mut c, bd)| {
                 c.unsolicited = true;
                 for (pos, mode) in bd {
